@@ -134,14 +134,18 @@ MonFile(specsq, refs, bare, parses) ==
 RenderEv ==
   /\ IsEv("Render")
   /\ LET fc   == [name |-> cf.pkgname, canonicalq |-> cf.canonicalq, headers |-> cf.headers, comments |-> cf.comments, preamble |-> cf.preamble]
-         pred == RenderFile(Cfg, fc, E.body, imps, cf.sorted)
+         pred == IF E.rawstatus = "skip" THEN <<<<>>, <<>>>> ELSE RenderFile(Cfg, fc, E.body, imps, cf.sorted)
          refs == SeqSet(E.refs)
          bare == SeqSet(E.bare)
          obsT == TableFn(E.table)
      IN /\ (E.rawstatus = "nil" /\ Flat(pred[1]) # E.raw) => Report("DRIFT", "raw")
-        /\ (pred[2] # obsT) => Report("DRIFT", "table")
-        /\ MonRefs(E.specs, refs, bare, TRUE)
-        /\ MonFile(E.specs, refs, bare, E.parses)
+        /\ (E.rawstatus # "skip" /\ pred[2] # obsT) => Report("DRIFT", "table")
+        \* (corpus files: identifiers are not unique per path, the symbol-based reference projection does not apply)
+        /\ (~E.c01.on) => (MonRefs(E.specs, refs, bare, TRUE) /\ MonFile(E.specs, refs, bare, E.parses))
+        \* C01: the re-parsed output equals the source program (package, imports under the same names, every declaration)
+        /\ (E.c01.on /\ E.status # "nil") => Report("C01", IF E.c01.known # "" THEN E.c01.known \o ":" \o E.c01.file ELSE "render fails: " \o E.c01.file)
+        /\ (E.c01.on /\ E.status = "nil" /\ ~(E.c01.parses /\ E.c01.pkgeq /\ E.c01.impeq /\ E.c01.asteq))
+             => Report("C01", IF E.c01.known # "" THEN E.c01.known \o ":" \o E.c01.file ELSE "differs: " \o E.c01.file)
         \* C02: a successful render is valid Go and exactly gofmt of the raw rendering; invalid compositions are errors
         /\ (E.status = "panic" \/ E.rawstatus = "panic") => Report("C02", "panic")
         /\ (E.status = "nil" /\ E.rawstatus = "nil" /\ ~E.fmteq) => Report("C02", "output is not gofmt of the raw rendering")
